@@ -33,8 +33,17 @@ struct MinF : public Apply2Functor<MinF, int, int, int> { int ApplyOperation(con
 struct V1 : public VoidApply1Functor<V1, int> { std::multiset<int> seen; void ApplyOperation(const int& a) { seen.insert(a); } };
 struct V2 : public VoidApply2Functor<V2, int, int> { std::multiset<std::pair<int, int>> seen; void ApplyOperation(const int& a, const int& b) { seen.insert({a, b}); } };
 
-static Tab table(const M& m, int V) { Tab t; for (int x = 0; x < (1 << V); x++) { SymbolicVarAsgn a(V, x); t.push_back(m.GetValue(a)); } return t; }
-static std::string tstr(const Tab& t) { std::string s; for (int v : t) s += char('0' + v); return s; }
+// Layout: the V logical variables of a domain may sit at chosen PHYSICAL positions of a wider assignment (all other positions don't care), so that the same
+// exhaustive domains also cross the byte boundaries of SymbolicVarAsgn's packed storage (8 variables per char).  W == 0: the identity layout (V variables, positions 0..V-1).
+struct Layout { int id = 0, W = 0; std::vector<int> pos; };
+static Layout LAY;
+static std::string phys(const std::string& s) { if (!LAY.W) return s; std::string r(LAY.W, 'X'); for (size_t k = 0; k < s.size(); k++) r[LAY.pos[k]] = s[k]; return r; }
+static Tab table(const M& m, int V) { Tab t; for (int x = 0; x < (1 << V); x++) {
+    if (!LAY.W) { SymbolicVarAsgn a(V, x); t.push_back(m.GetValue(a)); continue; }
+    int got[2]; for (int fill = 0; fill < 2; fill++) { std::string s(LAY.W, fill ? '1' : '0'); for (int k = 0; k < V; k++) s[LAY.pos[k]] = (x >> k & 1) ? '1' : '0'; got[fill] = m.GetValue(SymbolicVarAsgn(s)); }
+    t.push_back(got[0] == got[1] ? got[0] : -1 - got[0]);   // a value that depends on a don't-care position can equal no expected table
+  } return t; }
+static std::string tstr(const Tab& t) { std::string s; for (int v : t) s += v < 0 ? '?' : char('0' + v); return s; }
 static std::string cubeStr(int code, int V) { std::string s; for (int i = 0; i < V; i++) { s += "01X"[code % 3]; code /= 3; } return s; }
 static Tab cubeTab(const std::string& s, int v, int d) { int V = (int)s.size(); Tab t; for (int x = 0; x < (1 << V); x++) { bool m = true; for (int i = 0; i < V; i++) { int bit = x >> i & 1; if (s[i] == '0' && bit) m = false; if (s[i] == '1' && !bit) m = false; } t.push_back(m ? v : d); } return t; }
 
@@ -45,7 +54,7 @@ struct World {
   void check(Ctx& c, const M& r, const Tab& expect, int V, const std::string& sub, const std::string& what) {
     Tab got = table(r, V); verif::obs(tstr(got));
     if (got != expect) { c.viol(sub, "wrong_value_for_some_assignment", {}, what + " expected table " + tstr(expect) + " got " + tstr(got)); return; }
-    auto& slot = canon[{V, expect}];
+    auto& slot = canon[{V + 1000 * LAY.id, expect}];
     if (!slot) slot.reset(new M(r)); else if (!(*slot == r) || (*slot != r)) c.viol(sub, "two_diagrams_for_one_function", {}, what + " table " + tstr(expect) + ": operator== is false for two diagrams denoting the same function");
   }
 };
@@ -54,16 +63,16 @@ static World& W() { static World w; return w; }
 // the base: all single-cube diagrams over V variables and the constants
 struct Base { int V; std::vector<std::unique_ptr<M>> d; std::vector<Tab> t; std::vector<std::string> name; };
 static Base& base(int V) {
-  static std::map<int, Base> B; auto it = B.find(V); if (it != B.end()) return it->second;
-  Base& b = B[V]; b.V = V; int nc = 1; for (int i = 0; i < V; i++) nc *= 3;
-  for (int code = 0; code < nc; code++) for (int v = 0; v < NV; v++) for (int dflt = 0; dflt < NV; dflt++) { std::string s = cubeStr(code, V); b.d.emplace_back(new M(SymbolicVarAsgn(s), v, dflt)); b.t.push_back(cubeTab(s, v, dflt)); b.name.push_back("M(" + s + "," + std::to_string(v) + "," + std::to_string(dflt) + ")"); }
+  static std::map<int, Base> B; auto it = B.find(V + 1000 * LAY.id); if (it != B.end()) return it->second;
+  Base& b = B[V + 1000 * LAY.id]; b.V = V; int nc = 1; for (int i = 0; i < V; i++) nc *= 3;
+  for (int code = 0; code < nc; code++) for (int v = 0; v < NV; v++) for (int dflt = 0; dflt < NV; dflt++) { std::string s = cubeStr(code, V); b.d.emplace_back(new M(SymbolicVarAsgn(phys(s)), v, dflt)); b.t.push_back(cubeTab(s, v, dflt)); b.name.push_back("M(" + s + "," + std::to_string(v) + "," + std::to_string(dflt) + ")"); }
   for (int v = 0; v < NV; v++) { b.d.emplace_back(new M(v)); b.t.push_back(Tab(1 << V, v)); b.name.push_back("const(" + std::to_string(v) + ")"); }
   return b;
 }
 // every function {0,1}^V -> {0,1,2}, built as the maximum of its minterm cubes
 static std::unique_ptr<M> buildFn(const Tab& f, int V) {
   std::unique_ptr<M> m(new M(0)); MaxF mx;
-  for (int x = 0; x < (1 << V); x++) if (f[x]) { std::string s; for (int i = 0; i < V; i++) s += (x >> i & 1) ? '1' : '0'; M cube(SymbolicVarAsgn(s), f[x], 0); M r = mx(*m, cube); *m = r; }
+  for (int x = 0; x < (1 << V); x++) if (f[x]) { std::string s; for (int i = 0; i < V; i++) s += (x >> i & 1) ? '1' : '0'; M cube(SymbolicVarAsgn(phys(s)), f[x], 0); M r = mx(*m, cube); *m = r; }
   return m;
 }
 static Tab fnOf(uint64_t idx, int V) { Tab f; for (int x = 0; x < (1 << V); x++) { f.push_back((int)(idx % 3)); idx /= 3; } return f; }
@@ -157,6 +166,28 @@ static void stageAllFunctions(Env& env, const std::string& stage, int V) {
   env.parallel(o);
 }
 
+// every function over V logical variables placed by the current layout: construction, Project over every subset of the occupied positions (also together with an
+// unoccupied position, which must change nothing for idempotent combiners), Rename by a constant shift that moves the variables across a byte boundary
+static void stageAllFunctionsWide(Env& env, const std::string& stage, int V) {
+  uint64_t nf = 1; for (int x = 0; x < (1 << V); x++) nf *= 3;
+  ParallelOpts o; o.stage = stage; o.size = nf; o.block = 64;
+  o.run = [V](uint64_t idx, Ctx& c) {
+    Tab f = fnOf(idx, V); std::unique_ptr<M> m = buildFn(f, V); c.evals(); { std::set<int> vs(f.begin(), f.end()); if (vs.size() > 1) c.nontrivial(); }
+    std::string nm = "function " + tstr(f) + " at positions"; for (int p : LAY.pos) nm += " " + std::to_string(p); nm += " of " + std::to_string(LAY.W);
+    W().check(c, *m, f, V, "construct(wide)", nm);
+    int freePos = -1; for (int p = 0; p < LAY.W && freePos < 0; p++) if (std::find(LAY.pos.begin(), LAY.pos.end(), p) == LAY.pos.end()) freePos = p;
+    for (int mask = 0; mask < (1 << V); mask++) for (int extra = 0; extra < 2; extra++) { std::set<size_t> vars; for (int k = 0; k < V; k++) if (mask >> k & 1) vars.insert(LAY.pos[k]); if (extra) vars.insert(freePos);
+      auto pred = [vars](size_t var) { return vars.count(var) != 0; };
+      for (int comb = 0; comb < 2; comb++) { Tab e(1 << V); for (int x = 0; x < (1 << V); x++) { int acc = comb ? 99 : -1; for (int y = 0; y < (1 << V); y++) if (((x ^ y) & ~mask) == 0) acc = comb ? std::min(acc, f[y]) : std::max(acc, f[y]); e[x] = acc; }
+        if (comb == 0) { MaxF fn; M r = m->Project(pred, fn); W().check(c, r, e, V, "Project(max,wide)", nm + " removing mask " + std::to_string(mask) + (extra ? " and an unoccupied position" : "")); }
+        else { MinF fn; M r = m->Project(pred, fn); W().check(c, r, e, V, "Project(min,wide)", nm + " removing mask " + std::to_string(mask) + (extra ? " and an unoccupied position" : "")); } c.count("project"); }
+      if (!extra && mask) for (int opk : {0, 2}) { Tab e = refProject(f, V, mask, opk); Op2 fn(opk); M r = m->Project(pred, fn); W().check(c, r, e, V, "Project(non-idempotent,wide)", nm + " removing mask " + std::to_string(mask)); c.count("project_nonidempotent"); } }
+    for (int d : {1, 3, 8}) { M r = m->Rename([d](size_t var) { return var + d; }); Layout keep = LAY; LAY.W += d; for (int& p : LAY.pos) p += d; LAY.id = keep.id * 10 + d; W().check(c, r, f, V, "Rename(shift,wide)", nm + " shifted by " + std::to_string(d)); LAY = keep; c.count("rename"); }
+    for (int k = 0; k < 3; k++) { Op1 g(k); M r = g(*m); Tab e; for (int v : f) e.push_back(op1(k, v)); W().check(c, r, e, V, "Apply1(wide)", nm); }
+  };
+  env.parallel(o);
+}
+
 // all ordered pairs of ALL functions (thorough)
 static void stageAllPairs(Env& env, const std::string& stage, int V) {
   uint64_t nf = 1; for (int x = 0; x < (1 << V); x++) nf *= 3;
@@ -179,5 +210,16 @@ static Register r6("c17.v3.allpairs", "C17", "ALL 43M ordered pairs of ALL 6561 
 static Register r7("c17.v4.base", "C17", "all single-cube diagrams over 4 variables", [](Env& e) { stageBase(e, "c17.v4.base", 4); });
 static Register r8("c17.v4.apply2", "C17", "all ordered pairs of the 732 base diagrams over 4 variables x 4 ops", [](Env& e) { stageApply2(e, "c17.v4.apply2", 4); });
 static Register r9("c17.v4.trees", "C17", "all triples of a 40-element sub-basis over 4 variables", [](Env& e) { stageTrees(e, "c17.v4.trees", 4, 40); });
+
+static void setLay(int id, int W, std::vector<int> pos) { LAY.id = id; LAY.W = W; LAY.pos = pos; }
+#define WIDE(ID, W, ...) \
+static Register w##ID##a("c17.w" #ID ".apply2", "C17", "3 logical variables at physical positions {" #__VA_ARGS__ "} of " #W " (crossing the 8-variables-per-byte packing): all ordered pairs of the 246 base diagrams x 4 binary leaf operations", [](Env& e) { setLay(ID, W, {__VA_ARGS__}); stageBase(e, "c17.w" #ID ".base", 3); stageApply2(e, "c17.w" #ID ".apply2", 3); }); \
+static Register w##ID##t("c17.w" #ID ".trees", "C17", "same layout: all triples of a 30-element sub-basis: ternary ops and depth-2 trees", [](Env& e) { setLay(ID, W, {__VA_ARGS__}); stageTrees(e, "c17.w" #ID ".trees", 3, 30); }); \
+static Register w##ID##f("c17.w" #ID ".allfn", "C17", "same layout: ALL 6561 functions: construction, Project over all subsets of the occupied positions (+ an unoccupied one) with max/min/(a+b)%3/(2a+b)%3, Rename by shifts 1, 3, 8, Apply1", [](Env& e) { setLay(ID, W, {__VA_ARGS__}); stageAllFunctionsWide(e, "c17.w" #ID ".allfn", 3); });
+WIDE(1, 10, 6, 7, 8)
+WIDE(2, 10, 7, 8, 9)
+WIDE(3, 18, 0, 8, 16)
+WIDE(4, 17, 14, 15, 16)
+WIDE(5, 33, 7, 15, 32)
 
 }  // namespace c17
